@@ -93,6 +93,7 @@ pub fn check_stream(c: &mut Case, cfg: &DCfg, input: &[u8], out: &[u8], dict: Op
                 Some(want) => {
                     let mut w = want.clone();
                     w.xfl = f.xfl; // XFL is chosen by the library
+                    w.hcrc_val = 0; // (how the request was spelled is not in the stream)
                     if f != w {
                         return Err(format!("gzip header fields differ from those supplied: wrote {:?}, supplied {:?}", f, want));
                     }
@@ -177,4 +178,20 @@ pub fn run(ctx: &mut Ctx) {
             },
         );
     });
+    // gzip streams with caller-supplied headers (the lattice of C20's write side: field lengths around the
+    // pending-buffer capacity, starved output) and streams with preset dictionaries (C13's rows): wrapper and body
+    // must be well-formed there too
+    let body = crate::inputs::text(12, 40);
+    for row in crate::hfam::hdr_rows(ctx.quick()) {
+        ctx.case(
+            "gzip-header-rows",
+            || row.desc(),
+            |c| {
+                c.exec();
+                let t = run_deflate::<Rs>(&row.cfg, &body, &row.sched, &env, &DExtra { gz: Some(&row.gz), ..Default::default() }, None)?;
+                c.nontrivial();
+                check_stream(c, &row.cfg, &body, &t.out, None, Some(&row.gz))
+            },
+        );
+    }
 }
